@@ -644,6 +644,10 @@ impl File {
         self.update_stamp(v, false)?;
         self.failed_runid = None;
         self.is_override = true;
+        // The recorded checksum describes the output we generated, not what the user put
+        // in its place.  Keeping it would let a later rebuild that reproduces the old
+        // output be reported as "unchanged" to dependents built from the user's version.
+        self.csum = String::new();
         Ok(())
     }
 
